@@ -134,4 +134,16 @@ PROPS = {
         "assumptions": ["the animated wrapping is a single full-canvas frame with the no-blend flag (a blended frame is composited over the background colour and legitimately differs)"],
         "partial": ["byte-level init-independence of LosslessDecoder::decode_frame (in-place) is not yet a theorem; exercised with poisoned buffers on every run"],
     },
+    "C10": {
+        "technique": "Lean 4 invariant proof (bit reservoir holds a valid stream window under every refill schedule) + schedule/fault enumeration on the real decoder and encoder",
+        "level_text": "Theorem C10.schedule_independent: for every byte string, every pair of fill_buf schedules (any non-empty exposure sizes, constant or varying) and every script of read_bits / fill / peek+consume requests, the lossless bit reader returns the same values and fails at the same request; both refill paths (8-byte look-ahead with `nbits |= 56`, byte at a time) reach the same position and bit count and the reservoir always holds exact stream bits (stale look-ahead bits are real upcoming bits). Encoder: the bytes delivered are the concatenation of the write_all arguments and a failing call fails the encode (model of the `?` chain). The runtime half of the property is decided by enumeration, not proof, on every run: the real bit reader under nine schedules against the model; every corpus file (all container kinds) fully read over a chunking BufRead+Seek under nine schedules (identical results); ONE fault injected at EVERY I/O call index (15k positions quick) - the call in progress must return Err, no panic, no Ok, earlier calls unaffected; encoder sinks failing at every write index and sinks accepting 1,2,3,7 bytes per write.",
+        "level_note": "Trusted: Lean kernel + standard axioms; a conforming BufRead (fill_buf non-empty unless at end); std's read_exact/Take/Seek/Cursor/write_all contracts and the presence of `?` at every I/O call are exercised, not proved.",
+        "design_ref": "DESIGN.md section 4, C10",
+        "trusted_base": COMMON_TB + [
+            "modelled, not verified: lossless.rs BitReader (fill with both paths, peek, peek_full, consume, read_bits); encoder write sequence (EncContainer.encodeWrites) against a failing sink",
+            "specification: the property itself (equality across schedules; fault => Err)",
+        ],
+        "assumptions": ["fill_buf exposes a non-empty prefix of the remaining bytes unless at end of input", "single injected fault per run (the property's quantifier)"],
+        "partial": ["whole-decoder schedule independence and fault propagation are enumerated on a corpus, not proved (they depend on std I/O adaptors and on every `?` in the Rust code)"],
+    },
 }
